@@ -17,7 +17,9 @@ var (
 	OnSleep func(d time.Duration)
 	// Reads counts clock readings, Sleeps counts sleeps, SleptNs their sum.
 	Reads, Sleeps int64
-	SleptNs       int64
+	// ZeroSleeps counts sleeps of zero or negative duration (they do not yield).
+	ZeroSleeps int64
+	SleptNs    int64
 )
 
 // Reset restarts the clock.
@@ -44,8 +46,10 @@ func Until(t time.Time) time.Duration { return t.Sub(Now()) }
 // Sleep is time.Sleep on the virtual clock.
 func Sleep(d time.Duration) {
 	Sleeps++
-	if d < 0 {
-		d = 0
+	if d <= 0 {
+		// like time.Sleep: returns at once, nobody else gets a turn
+		ZeroSleeps++
+		return
 	}
 	SleptNs += int64(d)
 	if OnSleep != nil {
